@@ -1241,7 +1241,8 @@ class MyPyAstVisitor:
         if is_internal(name) and not name.endswith("__"):
             return False
 
-        if isinstance(parent, Class) and (name == "__init__" or not is_internal(name)):
+        # At this point the name is either not internal or a dunder name, so the class decides
+        if isinstance(parent, Class):
             return parent.is_public
 
         # The slicing is necessary so __init__ functions are not excluded (already handled in the first condition).
